@@ -1154,7 +1154,8 @@ EXHAUSTIVE_SPACE = {
     "quick": "fixed pair of frames (14 x 11 rows, int keys with duplicates and keys missing on both sides) x how in "
              "{inner,left,right,outer,leftsemi} x key form {on, index-index, column-index, index-column} x "
              "{broadcast=True, hash join tasks, hash join disk} x partition counts {(1,3),(3,1),(2,3),(3,2),(3,3)} x "
-             "indicator {False,True} (leftsemi: supported forms, no indicator)",
+             "indicator {False,True} (leftsemi: forms on and index-column only, no indicator; index-column is "
+             "NotImplementedError = unsupported once fixes_ready/C39_05 is applied)",
     "thorough": "the same product with key forms {on, on 2 columns, left_on/right_on, index-index, column-index, "
                 "index-column} and partition counts {(1,1),(1,3),(3,1),(2,3),(3,2),(3,3),(2,5)}",
 }
